@@ -62,6 +62,10 @@ class ChainGen:
         rules['List'] = r.choice([('star', ('ref', 'Elem')), ('sep', ('ref', 'Elem'), ('str', ';'), {'_op': '//'}),
                                   ('plus', ('ref', 'Elem'))])
         rules['start'] = r.choice([('ref', 'List'), ('seq', [('ref', 'List'), ('opt', ('str', '!'))])])
+        self.with_template = r.random() < 0.5
+        if self.with_template:
+            # a parameterised rule called with fixed arguments from an inherited rule
+            rules['Elem'] = ('alt', [('call', 'Wrap', [('ref', 'Item')]), rules['Elem']])
         return rules
 
     def override(self, name, level):
@@ -110,6 +114,8 @@ class ChainGen:
         grammars = []
         base = self.base_rules()
         stmts = [('rule', n, None, b) for n, b in base.items()]
+        if self.with_template:
+            stmts.append(('rule', 'Wrap', ['p'], ('seq', [('str', '<'), ('ref', 'p'), ('str', '>')])))
         if r.random() < 0.5:
             stmts.append(('class', 'Pt', None, [('field', 'x', ('ref', 'Item')), ('field', 'y', ('opt', ('ref', 'Item')))]))
             stmts = [s if s[1] != 'Elem' else ('rule', 'Elem', None, ('alt', [('seq', [('str', '@'), ('ref', 'Pt')]), s[3]])) for s in stmts]
@@ -124,6 +130,13 @@ class ChainGen:
                     body, sup = self.override(n, level)
                     uses_super = uses_super or sup
                     stmts.append(('rule', n, None, body))
+            if self.with_template and r.random() < 0.5:
+                mark = '{' if level == 1 else '['
+                close = '}' if level == 1 else ']'
+                nb = ('seq', [('str', mark), ('ref', 'p'), ('str', close)])
+                if r.random() < 0.5:
+                    nb = ('alt', [nb, ('call', 'super.Wrap', [('ref', 'p')])])
+                stmts.append(('rule', 'Wrap', ['p'], nb))
             if r.random() < 0.4:
                 stmts.append(('rule', 'Extra%d' % level, None, ('seq', [('str', '#'), ('ref', 'Item')])))
                 stmts = [s if s[1] != 'Elem' else ('rule', 'Elem', None, ('alt', [('ref', 'Extra%d' % level), s[3]])) for s in stmts]
@@ -139,7 +152,7 @@ class ChainGen:
 
 def alphabet_of(grammars, ignore_mode):
     al = work.grammar_alphabet(grammars)
-    keep = ''.join(c for c in al if c in 'abcd,:;()<>[]=#@^!')
+    keep = ''.join(c for c in al if c in 'abcd,:;()<>[]{}=#@^!')
     extra = {'none': '', 'base-named': ' ', 'base-anon': ' ', 'derived': '_', 'both': ' _', 'both-anon': ' _', 'three': ' _~'}[ignore_mode]
     return keep, extra
 
@@ -157,7 +170,9 @@ def run_chain(rec, grammars, ignore_mode, order, quick):
         if not gen.well_formed(grammars[:i]):
             rec.drop()
             return
-    descs = [gast.render_grammar(G) for G in grammars]
+    # derived grammars are written with and without the `override` / `overrides` keyword
+    kws = [None] + [rec.rng.choice([None, 'override', 'overrides']) for _ in grammars[1:]]
+    descs = [gast.render_grammar(G, gast.Style(override_kw=kw)) for G, kw in zip(grammars, kws)]
     names = [G['name'] for G in grammars]
     tokens, ign = alphabet_of(grammars, ignore_mode)
     chain_all = refpeg.build_chain(grammars)
@@ -282,6 +297,13 @@ def curated_chains():
     out.append(('self-recursive-2', 'none', [REC, NEG]))
     out.append(('self-recursive-3', 'none', [REC, NEG, [('rule', 'Num', None, ('alt', [('str', 'd'), ('super', 'Num')]))]]))
     out.append(('self-recursive-3b', 'none', [REC, [('rule', 'Num', None, ('alt', [('str', 'd'), ('super', 'Num')]))], NEG]))
+    TB = [('rule', 'start', None, ('star', ('alt', [('call', 'Wrap', [('ref', 'Item')]), ('ref', 'Item')]))),
+          ('rule', 'Wrap', ['p'], ('seq', [('str', '<'), ('ref', 'p'), ('str', '>')])),
+          ('rule', 'Item', None, ('alt', [('str', 'a'), ('str', 'b')]))]
+    out.append(('template-override', 'none', [TB, [('rule', 'Wrap', ['p'], ('seq', [('str', '{'), ('ref', 'p'), ('str', '}')]))]]))
+    out.append(('template-override-super', 'none', [TB, [('rule', 'Wrap', ['p'], ('alt', [('seq', [('str', '{'), ('ref', 'p'), ('str', '}')]),
+                                                                                    ('call', 'super.Wrap', [('ref', 'p')])]))],
+                                                    [('rule', 'Item', None, ('alt', [('str', 'd'), ('super', 'Item')]))]]))
     out.append(('class-override', 'none', [A + [('rule', 'P', None, ('seq', [('str', '@'), ('ref', 'Pt')]))],
                                            [('class', 'Pt', None, [('field', 'x', ('ref', 'Item')), ('field', 'z', ('str', '^'))])]]))
     sp = ('irule', 'Space', ('re', ' +', False))
